@@ -441,7 +441,7 @@ func init() {
 			var out []string
 			ast.Inspect(fd.Body, func(n ast.Node) bool {
 				if ta, ok := n.(*ast.TypeAssertExpr); ok && ta.Type != nil {
-					out = append(out, types.ExprString(ta.X)+".("+types.ExprString(ta.Type)+")")
+					out = append(out, types.ExprString(ta.Type)) // the asserted type only: variable names may change
 				}
 				return true
 			})
@@ -451,6 +451,37 @@ func init() {
 		fmt.Fprintf(&e.out, "def onPodDelete_asserts : List String := %s\n", lst(asserts(d, "nodeDeviceCache", "onPodDelete")))
 		fmt.Fprintf(&e.out, "def onPodAdd_asserts : List String := %s\n", lst(asserts(d, "nodeDeviceCache", "onPodAdd")))
 		fmt.Fprintf(&e.out, "def onPodUpdate_asserts : List String := %s\n", lst(asserts(d, "nodeDeviceCache", "onPodUpdate")))
+		recvCalls := func(recv, name string) []string {
+			fd := e.funcDecl(d, recv, name)
+			if fd == nil {
+				e.fail("%s.%s not found", recv, name)
+				return nil
+			}
+			return callsOnRecv(fd.Body, "n")
+		}
+		fmt.Fprintf(&e.out, "def onDeviceDelete_cases : List String := %s\n", lst(switchCases(d, "nodeDeviceCache", "onDeviceDelete")))
+		fmt.Fprintf(&e.out, "def onDeviceDelete_asserts : List String := %s\n", lst(asserts(d, "nodeDeviceCache", "onDeviceDelete")))
+		fmt.Fprintf(&e.out, "def onDeviceAdd_asserts : List String := %s\n", lst(asserts(d, "nodeDeviceCache", "onDeviceAdd")))
+		fmt.Fprintf(&e.out, "def onDeviceUpdate_asserts : List String := %s\n", lst(asserts(d, "nodeDeviceCache", "onDeviceUpdate")))
+		fmt.Fprintf(&e.out, "def onDeviceAdd_calls : List String := %s\n", lst(recvCalls("nodeDeviceCache", "onDeviceAdd")))
+		fmt.Fprintf(&e.out, "def onDeviceUpdate_calls : List String := %s\n", lst(recvCalls("nodeDeviceCache", "onDeviceUpdate")))
+		fmt.Fprintf(&e.out, "def onDeviceDelete_calls : List String := %s\n", lst(recvCalls("nodeDeviceCache", "onDeviceDelete")))
+		var dwiring []string
+		if fd := e.funcDecl(d, "", "registerDeviceEventHandler"); fd != nil {
+			ast.Inspect(fd.Body, func(n ast.Node) bool {
+				if cl, ok := n.(*ast.CompositeLit); ok && cl.Type != nil && strings.HasSuffix(types.ExprString(cl.Type), "ResourceEventHandlerFuncs") {
+					for _, el := range cl.Elts {
+						if kv, ok := el.(*ast.KeyValueExpr); ok {
+							dwiring = append(dwiring, types.ExprString(kv.Key)+"="+selName(kv.Value))
+						}
+					}
+				}
+				return true
+			})
+		} else {
+			e.fail("registerDeviceEventHandler not found")
+		}
+		fmt.Fprintf(&e.out, "def deviceHandler_wiring : List String := %s\n", lst(dwiring))
 		fmt.Fprintf(&e.out, "def rsvOnDelete_cases : List String := %s\n", lst(switchCases(d2, "ReservationToPodEventHandler", "OnDelete")))
 		fmt.Fprintf(&e.out, "def rsvOnDelete_asserts : List String := %s\n", lst(asserts(d2, "ReservationToPodEventHandler", "OnDelete")))
 		fmt.Fprintf(&e.out, "def rsvOnAdd_asserts : List String := %s\n", lst(asserts(d2, "ReservationToPodEventHandler", "OnAdd")))
@@ -482,7 +513,7 @@ func init() {
 				if cl, ok := n.(*ast.CompositeLit); ok && cl.Type != nil && strings.HasSuffix(types.ExprString(cl.Type), "ResourceEventHandlerFuncs") {
 					for _, el := range cl.Elts {
 						if kv, ok := el.(*ast.KeyValueExpr); ok {
-							wiring = append(wiring, types.ExprString(kv.Key)+"="+types.ExprString(kv.Value))
+							wiring = append(wiring, types.ExprString(kv.Key)+"="+selName(kv.Value)) // the method, not the receiver variable
 						}
 					}
 				}
@@ -492,7 +523,16 @@ func init() {
 			e.fail("registerPodEventHandler not found")
 		}
 		fmt.Fprintf(&e.out, "def podHandler_wiring : List String := %s\n", lst(wiring))
-		fmt.Fprintf(&e.out, "def rsvHandler_args : List String := %s\n", lst(argsOf("", "registerPodEventHandler", "NewReservationToPodEventHandler")))
+		var rsvArgs []string
+		for _, a := range argsOf("", "registerPodEventHandler", "NewReservationToPodEventHandler") {
+			parts := strings.Split(a, ", ")
+			for i, x := range parts {
+				if i > 0 { // the filters; the first argument is the (renamable) handler variable
+					rsvArgs = append(rsvArgs, x)
+				}
+			}
+		}
+		fmt.Fprintf(&e.out, "def rsvHandler_args : List String := %s\n", lst(rsvArgs))
 
 		// what is STORED into a map slot: right-hand sides of `<lhsPrefix>[…] = rhs`, in source order
 		stores := func(recv, name, lhsPrefix string) []string {
@@ -508,7 +548,15 @@ func init() {
 					return true
 				}
 				if ix, ok := as.Lhs[0].(*ast.IndexExpr); ok && types.ExprString(ix.X) == lhsPrefix {
-					out = append(out, types.ExprString(as.Rhs[0]))
+					// normalised: a `.DeepCopy()` call, or a bare variable (names may change)
+					switch v := as.Rhs[0].(type) {
+					case *ast.CallExpr:
+						out = append(out, "call:"+selName(v.Fun))
+					case *ast.Ident:
+						out = append(out, "var")
+					default:
+						out = append(out, types.ExprString(as.Rhs[0]))
+					}
 				}
 				return true
 			})
@@ -557,14 +605,37 @@ func init() {
 			roLocks = append(roLocks, lockCalls("Plugin", f))
 		}
 		fmt.Fprintf(&e.out, "def readonly_locks : List String := %s\n", lst(roLocks))
-		fmt.Fprintf(&e.out, "def removePod_append : List String := %s\n", lst(argsOf("Plugin", "RemovePod", "appendAllocated")))
-		fmt.Fprintf(&e.out, "def addPod_subtract : List String := %s\n", lst(argsOf("Plugin", "AddPod", "subtractAllocated")))
-		fmt.Fprintf(&e.out, "def removePod_getUsed : List String := %s\n", lst(argsOf("Plugin", "RemovePod", "getUsed")))
-		fmt.Fprintf(&e.out, "def restore_getUsed : List String := %s\n", lst(argsOf("Plugin", "RestoreReservation", "getUsed")))
-		fmt.Fprintf(&e.out, "def restore_appendByHints : List String := %s\n", lst(argsOf("Plugin", "RestoreReservation", "appendAllocatedByHints")))
-		fmt.Fprintf(&e.out, "def restore_subtract : List String := %s\n", lst(argsOf("Plugin", "RestoreReservation", "subtractAllocated")))
-		fmt.Fprintf(&e.out, "def merge_subtract : List String := %s\n", lst(argsOf("nodeReservationRestoreStateData", "mergeReservationAllocations", "subtractAllocated")))
-		fmt.Fprintf(&e.out, "def merge_append : List String := %s\n", lst(argsOf("nodeReservationRestoreStateData", "mergeReservationAllocations", "appendAllocated")))
-		fmt.Fprintf(&e.out, "def filter_append : List String := %s\n", lst(argsOf("Plugin", "Filter", "appendAllocated")))
+		// calls of the append / subtract helpers per read-only function: how many, and the literal withNonNegativeResult flag
+		// (variable names are not recorded: a rename must stay silent)
+		callShape := func(recv, name, callee string) []string {
+			var out []string
+			fd := e.funcDecl(d, recv, name)
+			if fd == nil {
+				e.fail("%s.%s not found", recv, name)
+				return out
+			}
+			ast.Inspect(fd.Body, func(n ast.Node) bool {
+				if c, ok := n.(*ast.CallExpr); ok && selName(c.Fun) == callee {
+					flag := "-"
+					if len(c.Args) > 0 {
+						if id, ok := c.Args[len(c.Args)-1].(*ast.Ident); ok && (id.Name == "true" || id.Name == "false") {
+							flag = id.Name
+						}
+					}
+					out = append(out, fmt.Sprintf("%d:%s", len(c.Args), flag))
+				}
+				return true
+			})
+			return out
+		}
+		fmt.Fprintf(&e.out, "def removePod_append : List String := %s\n", lst(callShape("Plugin", "RemovePod", "appendAllocated")))
+		fmt.Fprintf(&e.out, "def addPod_subtract : List String := %s\n", lst(callShape("Plugin", "AddPod", "subtractAllocated")))
+		fmt.Fprintf(&e.out, "def removePod_getUsed : List String := %s\n", lst(callShape("Plugin", "RemovePod", "getUsed")))
+		fmt.Fprintf(&e.out, "def restore_getUsed : List String := %s\n", lst(callShape("Plugin", "RestoreReservation", "getUsed")))
+		fmt.Fprintf(&e.out, "def restore_appendByHints : List String := %s\n", lst(callShape("Plugin", "RestoreReservation", "appendAllocatedByHints")))
+		fmt.Fprintf(&e.out, "def restore_subtract : List String := %s\n", lst(callShape("Plugin", "RestoreReservation", "subtractAllocated")))
+		fmt.Fprintf(&e.out, "def merge_subtract : List String := %s\n", lst(callShape("nodeReservationRestoreStateData", "mergeReservationAllocations", "subtractAllocated")))
+		fmt.Fprintf(&e.out, "def merge_append : List String := %s\n", lst(callShape("nodeReservationRestoreStateData", "mergeReservationAllocations", "appendAllocated")))
+		fmt.Fprintf(&e.out, "def filter_append : List String := %s\n", lst(callShape("Plugin", "Filter", "appendAllocated")))
 	}
 }
